@@ -85,6 +85,19 @@ def typeorder(t1, t2):
             if k is object:
                 return Order.MORE
             return Order.LESS if isinstance(k, t2) else Order.NONE
+        if (
+            o1 is type
+            and not o2
+            and isinstance(t2, type)
+            and t2 is not type
+            and t2 is not object
+            and not issubclass(type, t2)
+        ):
+            # type[K] against an ordinary class that the metaclass of K
+            # inherits from (an Enum class against Iterable)
+            (k,) = get_args(t1) or (object,)
+            if isinstance(k, type) and _subclasscheck(type(k), t2):
+                return Order.LESS
         if not o2:
             order = typeorder(o1, t2)
             if order is order.SAME:
@@ -126,6 +139,19 @@ def typeorder(t1, t2):
 
 def subclasscheck(t1, t2):
     """Check whether t1 is a "subclass" of t2."""
+    if _subclasscheck(t1, t2):
+        return True
+    if get_origin(t1) is type:
+        # type[K] stands for a class that was passed as an argument: that
+        # class is also an instance of its metaclass and of whatever the
+        # metaclass inherits from (Iterable for an Enum class, ...)
+        (k,) = get_args(t1) or (object,)
+        if isinstance(k, type) and type(k) is not type:
+            return _subclasscheck(type(k), t2)
+    return False
+
+
+def _subclasscheck(t1, t2):
     if t1 == t2:
         return True
 
